@@ -48,3 +48,46 @@ Example C11_example_huge_step :
   get_indexes (mk_slice {| number := 1; omitted := false |} {| number := 0; omitted := true |}
                         {| number := 9223372036854775807; omitted := false |}) 3 = IOk [1].
 Proof. vm_compute. reflexivity. Qed.
+
+
+(* ---------- from the path text (SliceParse.v, ChainParse.v, ChainAddr.v) ---------- *)
+From JP Require Import Peg Grammar Tree Actions Json Eval EvalInv1 EvalInv4 EvalTop KeyDefs KeyParse IdxParse SliceParse WildParse RecParse ChainParse ChainAddr.
+Open Scope list_scope.
+
+(* For EVERY slice text [a:b] / [a:b:c] — each bound omitted or an optionally signed number that fits int64 — and
+   every array: the path $[a:b:c] is accepted and returns exactly the elements Python's a[start:end:step] selects, in
+   that order (a step of 0 selects nothing and the retrieval fails), from the path TEXT through the regenerated
+   grammar (slice / anyIndex / sepSlice rules), actions 21/20/16/19 and C11_slice_python. *)
+Theorem C11_slice_from_text : forall cfg parse_float regex_ok ffun afun regex_match,
+  (forall f v w, small v -> ffun f v = Some w -> small w) ->
+  (forall f l w, Forall small l -> afun f l = Some w -> small w) ->
+  forall a b c xs st, step_ok (SSlice a b c) = true -> small (VArr xs) -> ok st ->
+  exists t, parse_with cfg parse_float regex_ok jsonpath_grammar (chain_path [RPlain (SSlice a b c)]) = ParseOk t /\
+            match nav_all [RPlain (SSlice a b c)] ([], VArr xs) with
+            | [] => exists e, fst (eval_run ffun afun regex_match t (VArr xs) st) = OErr e
+            | l => fst (eval_run ffun afun regex_match t (VArr xs) st) = OOk (map (loc_result cfg) l)
+            end.
+Proof.
+  intros cfg pf rx ffun afun rm H1 H2 a b c xs st Hs Hsm Hok.
+  apply (chain_retrieval cfg pf rx ffun afun rm H1 H2 (RPlain (SSlice a b c)) [] (VArr xs) st); [|exact Hsm|exact Hok].
+  cbn [forallb rstep_ok]. rewrite Hs. reflexivity.
+Qed.
+Print Assumptions C11_slice_from_text.
+
+(* what nav_all means for one slice step: the elements at Python's indices *)
+Theorem C11_slice_nav : forall a b c xs,
+  map snd (nav_all [RPlain (SSlice a b c)] ([], VArr xs)) =
+  flat_map (fun i => match nth_value xs i with Some x => [x] | None => [] end)
+           (py_slice (bopt a) (bopt b) (match c with Some t => bopt t | None => None end) (Z.of_nat (List.length xs))).
+Proof.
+  intros a b c xs. cbn [nav_all nav1r nav1 fst snd].
+  generalize (py_slice (bopt a) (bopt b) (match c with Some t => bopt t | None => None end) (Z.of_nat (List.length xs))).
+  intros l. induction l as [|i l IH]; [reflexivity|].
+  cbn [flat_map]. rewrite flat_map_app, map_app, IH. destruct (nth_value xs i); reflexivity.
+Qed.
+
+Example C11_slice_text_example :
+  chain_path [RPlain (SSlice [45; 51]%N [] (Some [50]%N))] = [36; 91; 45; 51; 58; 58; 50; 93]%N /\
+  step_ok (SSlice [45; 51]%N [] (Some [50]%N)) = true /\
+  map snd (nav_all [RPlain (SSlice [45; 51]%N [] (Some [50]%N))] ([], VArr [VNull; VBool true; VBool false; VNull; VBool true])) = [VBool false; VBool true].
+Proof. repeat split; vm_compute; reflexivity. Qed.
